@@ -283,17 +283,17 @@ def diamondListing (record : Nat → Nat → Nat) (k : Nat) : Option (Nat × Nat
   | .ok s => some (s.out.length, s.scan)
   | .error _ => none
 
-set_option maxRecDepth 8000 in
+set_option maxRecDepth 4000 in
 /-- FULL for an arbitrary recorded element is false: recording the direct base instead of the
 yielded class (`mro.append(cls)`) lists `2^(k+2) - 3` entries for `k` nested diamonds (3k+1
 classes) and compares ~4^k cells, where the source lists `3k + 1` -/
 theorem mro_dedup_needed_witness :
-    (List.range 5).map (fun k => (diamondListing JediModel.Mro.recordBase k).map (·.1))
-      = [some 1, some 5, some 13, some 29, some 61] ∧
-    (List.range 5).map (fun k => (diamondListing JediModel.Mro.recordYielded k).map (·.1))
-      = [some 1, some 4, some 7, some 10, some 13] ∧
-    diamondListing JediModel.Mro.recordBase 4 = some (61, 1830) ∧
-    diamondListing JediModel.Mro.recordYielded 4 = some (13, 208) := by decide
+    (List.range 4).map (fun k => (diamondListing JediModel.Mro.recordBase k).map (·.1))
+      = [some (2 ^ 2 - 3), some (2 ^ 3 - 3), some (2 ^ 4 - 3), some (2 ^ 5 - 3)] ∧
+    (List.range 4).map (fun k => (diamondListing JediModel.Mro.recordYielded k).map (·.1))
+      = [some 1, some 4, some 7, some 10] ∧
+    diamondListing JediModel.Mro.recordBase 3 = some (29, 406) ∧
+    diamondListing JediModel.Mro.recordYielded 3 = some (10, 115) := by decide
 
 /-- FULL without acyclicity is false for the *model* (its fuel runs out on a self-inheriting class);
 in the code the generator cache's sentinel cuts the cycle — oracle streams `gencache` and `e2e` -/
